@@ -60,6 +60,9 @@ var programs = []progClass{
 
 var fileNames = []string{"p.tsh", "a.b.c.tsh", "noext", "with blank.tsh", "UPPER.TSH", "tests.tsh", "hash.tsh", "dot..tsh"}
 
+// names that begin or end with white space (family G)
+var blankNames = []string{" lead.tsh", "trail.tsh ", "noext ", "\ttab.tsh", " both .tsh "}
+
 // baseOf is "F minus its last extension", written independently of tsh.go.
 func baseOf(f string) string {
 	if i := strings.LastIndexByte(f, '.'); i >= 0 {
@@ -323,6 +326,40 @@ func enumerate(thorough bool) []Config {
 			out = append(out, Config{Targets: ts, Order: canonOrder(len(ts)), Spell: shortSpell(len(ts) + 2), File: "p.tsh", Prog: p.Name, Dir: "empty", Form: "abs"})
 		}
 	}
+	// (G) arguments that begin or end with white space: a file / directory name is the argument byte for byte
+	// (a decoy file with the trimmed name, holding another program, lies next to the input), and a padded switch or
+	// target name is not a switch / a target
+	for _, f := range blankNames {
+		for _, ts := range targetSeqs(2) {
+			for _, d := range []string{"empty", "sentinel"} {
+				for _, form := range []string{"abs", "rel", "rel-in-cwd"} {
+					for _, ord := range []string{canonOrder(len(ts)), strings.Repeat("T,", len(ts)) + "I,O"} {
+						out = append(out, Config{Targets: ts, Order: ord, Spell: shortSpell(len(ts) + 2), File: f, Prog: "ok-small", Dir: d, Form: form})
+					}
+				}
+			}
+		}
+	}
+	for _, on := range []string{"out ", " out", "out\t", " o ut "} {
+		for _, ts := range targetSeqs(2) {
+			for _, d := range []string{"empty", "sentinel"} {
+				out = append(out, Config{Targets: ts, Order: canonOrder(len(ts)), Spell: shortSpell(len(ts) + 2), File: "p.tsh", Prog: "ok-small", Dir: d, Form: "rel-out-named", OutName: on})
+			}
+		}
+	}
+	for _, tg := range []string{"bash ", " bash", "batch\t", " batch "} {
+		bad("padded-target:"+fmt.Sprintf("%q", tg)+"@only", []string{tg}, "-i", "{F}", "-o", "{D}", "-t", tg)
+		bad("padded-target:"+fmt.Sprintf("%q", tg)+"@after-valid", []string{"bash", tg}, "-i", "{F}", "-o", "{D}", "-t", "bash", "-t", tg)
+	}
+	for _, sw := range []string{" -i", "-i ", "-o ", " -t", "--in ", "\t--out"} {
+		raw := []string{"-i", "{F}", "-o", "{D}", "-t", "bash"}
+		for i, a := range raw {
+			if a == strings.TrimSpace(sw) || (strings.TrimSpace(sw) == "--in" && a == "-i") || (strings.TrimSpace(sw) == "--out" && a == "-o") {
+				raw[i] = sw
+			}
+		}
+		bad("padded-switch:"+fmt.Sprintf("%q", sw), b1, raw...)
+	}
 	// (D) injected environment fault: the output path of one target is a directory
 	for _, ts := range targetSeqs(2) {
 		for _, ext := range []string{"sh", "bat"} {
@@ -436,6 +473,13 @@ func runConfig(c Config) result {
 		}
 	case "dir":
 		os.MkdirAll(fpath, 0o755)
+	}
+	if tf := strings.TrimSpace(c.File); tf != c.File && tf != "" {
+		// decoy: another program under the trimmed name
+		os.WriteFile(filepath.Join(in, tf), []byte("print(\"decoy\")\n"), 0o644)
+	}
+	if tn := strings.TrimSpace(outName); tn != outName && tn != "" {
+		os.MkdirAll(filepath.Join(root, tn), 0o755) // decoy directory under the trimmed name
 	}
 	filepath.Walk(in, func(p string, info os.FileInfo, err error) error {
 		if err == nil {
@@ -1009,7 +1053,7 @@ func Run() int {
 		r.Set("exhaustive", false)
 		r.Set("cap_hit", "sweep stopped at the internal deadline")
 	}
-	r.Set("rule", "a case = one execution of the real tsh binary (built from /repo at check time) in a fresh tree; coordinates: arrangement of the pairs -i/-o/-t..., short/long spelling per pair, target sequence of length 1..3 (4 in thorough sweep B), input file name (5), program class (8: 2 accepted, lexical/syntax/type/conversion error, missing file, directory), output directory (empty / pre-populated with sentinel outputs), path form (absolute / relative), 70+ malformed option sets, 1 injected write fault, plus (F) every sole-facility program of package corpus x every target sequence of length <= 2 (3 in thorough); distinct by the full coordinate string; non-trivial: every case compares exit status, the full before/after content of the output directory against the library's bytes, and the input's bytes and mtime")
+	r.Set("rule", "a case = one execution of the real tsh binary (built from /repo at check time) in a fresh tree; coordinates: arrangement of the pairs -i/-o/-t..., short/long spelling per pair, target sequence of length 1..3 (4 in thorough sweep B), input file name (5), program class (8: 2 accepted, lexical/syntax/type/conversion error, missing file, directory), output directory (empty / pre-populated with sentinel outputs), path form (absolute / relative), 70+ malformed option sets, 1 injected write fault, plus (F) every sole-facility program of package corpus x every target sequence of length <= 2 (3 in thorough), (G) arguments that begin or end with white space: 5 such input names (a decoy program under the trimmed name next to each) x 3 path forms x 2 orders, 4 such output directories (a decoy directory under the trimmed name), padded target names and switches as malformed option sets; distinct by the full coordinate string; non-trivial: every case compares exit status, the full before/after content of the output directory against the library's bytes, and the input's bytes and mtime")
 	r.Assumef("the library's result for (F, program, target) is computed in-process by the transpiler linked from the same /repo working tree, on the path of the first run that needs it and on a copy in another directory (the two must agree, else the case is counted unspecified), then reused for every run with the same F, program and target; std is copied from /repo/std next to both executables")
 	r.Assumef("on an error the property fixes only: non-zero exit status, no new or changed output for a failing target, input untouched; a requested target that did not fail may be written exactly or not at all; the text and the value of a non-zero status are not compared")
 	r.Assumef("a trailing switch without a value and a stray word are counted as bad options")
